@@ -21,9 +21,12 @@ EXTENDS Abs
 -----------------------------------------------------------------------------
 (* FilterAndMapPodsByNode *)
 
-IgnoredNodes(d, role) == IF role = "active" THEN CNodes(d) ELSE {}
+\* the active replica set leaves the canary nodes alone; the canary replica set manages the canary nodes only
+IgnoredNodes(s, d, role) == IF role = "active" THEN CNodes(d)
+                            ELSE IF role = "canary" THEN NodeNames(s) \ CNodes(d)
+                            ELSE {}
 
-FitNodes(s, d, r, role) == { n \in NodeNames(s) \ IgnoredNodes(d, role) : Fits(s, n, r.tmpl) }
+FitNodes(s, d, r, role) == { n \in NodeNames(s) \ IgnoredNodes(s, d, role) : Fits(s, n, r.tmpl) }
 
 \* pods the sync lists: own namespace, EDS name label (plus the old DaemonSet's pods)
 Listed(s, d) == { p \in OwnPods(s, d) : p.node # "" /\ p.phase # "Unknown" }
@@ -42,7 +45,7 @@ KeptSet(s, d, r, role, FD, n) == KeptCandidates({ p \in OnFit(s, d, r, role, FD)
 \* already terminating, so only the others are written.
 CleanUpPods(s, d, r, role, FD, kept) ==
     FD \cup
-    { q \in Listed(s, d) : q.node \notin FitNodes(s, d, r, role) /\ q.node \notin IgnoredNodes(d, role) /\ ~q.term } \cup
+    { q \in Listed(s, d) : q.node \notin FitNodes(s, d, r, role) /\ q.node \notin IgnoredNodes(s, d, role) /\ ~q.term } \cup
     { q \in OnFit(s, d, r, role, FD) : q # kept[q.node] }
 CleanUp(s, d, r, role, FD, kept) == { p.id : p \in { q \in CleanUpPods(s, d, r, role, FD, kept) : ~q.term } }
 
